@@ -601,6 +601,10 @@ func (P *Prog) checkPresentAtProvider(r *Result, rule string) {
 			}
 			has := false
 			for _, c := range p.conds {
+				// (an error result that is nil says the lookup went through, not that the value is missing)
+				if strings.Contains(c, "Err(") && strings.HasSuffix(c, " == nil)") {
+					continue
+				}
 				for _, re := range presenceAtoms {
 					if re.MatchString(c) {
 						has = true
